@@ -85,6 +85,14 @@ func (t *Table) SetCell(row, col int, cell Cell) error {
 	return nil
 }
 
+// escapeMarkdownCell makes cell text safe inside a pipe table: the column
+// separator is escaped and line breaks become spaces.
+func escapeMarkdownCell(s string) string {
+	s = strings.ReplaceAll(s, "|", "\\|")
+	s = strings.ReplaceAll(s, "\n", " ")
+	return s
+}
+
 // ToMarkdown converts the table to markdown format
 func (t *Table) ToMarkdown() string {
 	if len(t.Rows) == 0 {
@@ -96,7 +104,7 @@ func (t *Table) ToMarkdown() string {
 	// Header row
 	for j, cell := range t.Rows[0] {
 		sb.WriteString("| ")
-		sb.WriteString(strings.ReplaceAll(cell.Text, "\n", " "))
+		sb.WriteString(escapeMarkdownCell(cell.Text))
 		sb.WriteString(" ")
 		if j == len(t.Rows[0])-1 {
 			sb.WriteString("|")
@@ -117,7 +125,7 @@ func (t *Table) ToMarkdown() string {
 	for i := 1; i < len(t.Rows); i++ {
 		for j, cell := range t.Rows[i] {
 			sb.WriteString("| ")
-			sb.WriteString(strings.ReplaceAll(cell.Text, "\n", " "))
+			sb.WriteString(escapeMarkdownCell(cell.Text))
 			sb.WriteString(" ")
 			if j == len(t.Rows[i])-1 {
 				sb.WriteString("|")
